@@ -1,4 +1,1837 @@
-//! C15: harness domain (stub).
+//! C15: serde round trip (`erltf_serde::{to_term, from_term, to_bytes, from_bytes}`) over a universe of Rust types.
+//!
+//! Dynamic part: `V` (a value of any type of the universe) implements `serde::Serialize` by calling exactly the
+//! `Serializer` methods the std / derived impls call; `&Ty` implements `DeserializeSeed` by calling exactly the
+//! `Deserializer` methods and visitors the std / derived impls use.  `Dyn` carries the top-level type through a
+//! thread-local, because `from_term` / `from_bytes` only take `T: Deserialize`.
+//! Concrete part: `#[derive(Serialize, Deserialize)]` and `#[derive(ElixirStruct)]` types, reflected into `V`
+//! through a reflection `Serializer` (`Reflect`) so that the same model requests apply.
+//! Text forms of `Ty` and `V`: see lean/EdpVerif/Drv/C15.lean.
+#![allow(dead_code)]
+use crate::canon::{hex, term_text};
+use crate::rng::Rng;
 use crate::Ctx;
+use erltf::types::{Atom, BigInt};
+use erltf::OwnedTerm;
+use serde::de::{self, DeserializeSeed, EnumAccess, MapAccess, SeqAccess, VariantAccess, Visitor};
+use serde::ser::{
+    self, SerializeMap, SerializeSeq, SerializeStruct, SerializeStructVariant, SerializeTuple, SerializeTupleStruct,
+    SerializeTupleVariant,
+};
+use serde::{Deserialize, Serialize};
+use std::cell::RefCell;
+use std::collections::{BTreeMap, HashMap};
+use std::fmt;
 
-pub fn run(_ctx: &mut Ctx) {}
+type Name = &'static str;
+
+thread_local! {
+    static INTERN: RefCell<HashMap<String, &'static str>> = RefCell::new(HashMap::new());
+    static INTERN_LIST: RefCell<HashMap<Vec<&'static str>, &'static [&'static str]>> = RefCell::new(HashMap::new());
+    static CUR_TY: RefCell<Option<Ty>> = const { RefCell::new(None) };
+}
+
+fn intern(s: &str) -> Name {
+    INTERN.with(|m| {
+        let mut m = m.borrow_mut();
+        if let Some(x) = m.get(s) {
+            return *x;
+        }
+        let l: &'static str = Box::leak(s.to_string().into_boxed_str());
+        m.insert(s.to_string(), l);
+        l
+    })
+}
+
+fn intern_list(v: Vec<&'static str>) -> &'static [&'static str] {
+    INTERN_LIST.with(|m| {
+        let mut m = m.borrow_mut();
+        if let Some(x) = m.get(&v) {
+            return *x;
+        }
+        let l: &'static [&'static str] = Box::leak(v.clone().into_boxed_slice());
+        m.insert(v, l);
+        l
+    })
+}
+
+#[derive(Clone, Copy, Debug, PartialEq, Eq, Hash)]
+pub enum IntTy {
+    I8,
+    I16,
+    I32,
+    I64,
+    U8,
+    U16,
+    U32,
+    U64,
+}
+
+impl IntTy {
+    const ALL: [IntTy; 8] =
+        [IntTy::I8, IntTy::I16, IntTy::I32, IntTy::I64, IntTy::U8, IntTy::U16, IntTy::U32, IntTy::U64];
+    fn text(self) -> &'static str {
+        match self {
+            IntTy::I8 => "i8",
+            IntTy::I16 => "i16",
+            IntTy::I32 => "i32",
+            IntTy::I64 => "i64",
+            IntTy::U8 => "u8",
+            IntTy::U16 => "u16",
+            IntTy::U32 => "u32",
+            IntTy::U64 => "u64",
+        }
+    }
+    fn lo(self) -> i128 {
+        match self {
+            IntTy::I8 => i8::MIN as i128,
+            IntTy::I16 => i16::MIN as i128,
+            IntTy::I32 => i32::MIN as i128,
+            IntTy::I64 => i64::MIN as i128,
+            _ => 0,
+        }
+    }
+    fn hi(self) -> i128 {
+        match self {
+            IntTy::I8 => i8::MAX as i128,
+            IntTy::I16 => i16::MAX as i128,
+            IntTy::I32 => i32::MAX as i128,
+            IntTy::I64 => i64::MAX as i128,
+            IntTy::U8 => u8::MAX as i128,
+            IntTy::U16 => u16::MAX as i128,
+            IntTy::U32 => u32::MAX as i128,
+            IntTy::U64 => u64::MAX as i128,
+        }
+    }
+    fn fits(self, i: i128) -> bool {
+        self.lo() <= i && i <= self.hi()
+    }
+}
+
+/// Rust types.  In `Enum` a variant's second component is a shape marker: `Unit`, `Newtype("", t)`, `Tup(ts)`, `Struct("", fs)`.
+#[derive(Clone, Debug, PartialEq)]
+pub enum Ty {
+    Int(IntTy),
+    F32,
+    F64,
+    Bool,
+    Char,
+    Str,
+    Bytes,
+    Unit,
+    Opt(Box<Ty>),
+    Tup(Vec<Ty>),
+    Seq(Box<Ty>),
+    Map(Box<Ty>, Box<Ty>),
+    Struct(Name, Vec<(Name, Ty)>),
+    UnitStruct(Name),
+    Newtype(Name, Box<Ty>),
+    TupleStruct(Name, Vec<Ty>),
+    ExStruct(Name, Vec<(Name, Ty)>),
+    Enum(Name, Vec<(Name, Ty)>),
+}
+
+#[derive(Clone, Debug, PartialEq)]
+pub enum V {
+    Int(IntTy, i128),
+    F32(u32),
+    F64(u64),
+    Bool(bool),
+    Char(char),
+    Str(String),
+    Bytes(Vec<u8>),
+    Unit,
+    None,
+    Some(Box<V>),
+    Tup(Vec<V>),
+    Seq(Vec<V>),
+    Map(Vec<(V, V)>),
+    Struct(Name, Vec<(Name, V)>),
+    UnitStruct(Name),
+    Newtype(Name, Box<V>),
+    TupleStruct(Name, Vec<V>),
+    ExStruct(Name, Vec<(Name, V)>),
+    /// enum name, variant name, variant index, payload (shaped like the markers)
+    Variant(Name, Name, u32, Box<V>),
+}
+
+fn hx(s: &str) -> String {
+    hex(s.as_bytes())
+}
+
+fn join<T>(xs: &[T], f: impl Fn(&T) -> String) -> String {
+    xs.iter().map(f).collect::<Vec<_>>().join(",")
+}
+
+pub fn ty_text(t: &Ty) -> String {
+    match t {
+        Ty::Int(k) => k.text().to_string(),
+        Ty::F32 => "f32".into(),
+        Ty::F64 => "f64".into(),
+        Ty::Bool => "bool".into(),
+        Ty::Char => "char".into(),
+        Ty::Str => "str".into(),
+        Ty::Bytes => "bytes".into(),
+        Ty::Unit => "unit".into(),
+        Ty::Opt(t) => format!("opt({})", ty_text(t)),
+        Ty::Tup(ts) => format!("tup({})", join(ts, ty_text)),
+        Ty::Seq(t) => format!("seq({})", ty_text(t)),
+        Ty::Map(k, v) => format!("map({},{})", ty_text(k), ty_text(v)),
+        Ty::Struct(n, fs) => format!("st:{}({})", hx(n), join(fs, |f| format!("{}:{}", hx(f.0), ty_text(&f.1)))),
+        Ty::UnitStruct(n) => format!("us:{}", hx(n)),
+        Ty::Newtype(n, t) => format!("nt:{}({})", hx(n), ty_text(t)),
+        Ty::TupleStruct(n, ts) => format!("ts:{}({})", hx(n), join(ts, ty_text)),
+        Ty::ExStruct(n, fs) => format!("ex:{}({})", hx(n), join(fs, |f| format!("{}:{}", hx(f.0), ty_text(&f.1)))),
+        Ty::Enum(n, vs) => format!("en:{}({})", hx(n), join(vs, |f| format!("{}:{}", hx(f.0), ty_text(&f.1)))),
+    }
+}
+
+pub fn val_text(v: &V) -> String {
+    match v {
+        V::Int(k, i) => format!("{}:{}", k.text(), i),
+        V::F32(b) => format!("f32:{:08x}", b),
+        V::F64(b) => format!("f64:{:016x}", b),
+        V::Bool(b) => if *b { "true".into() } else { "false".into() },
+        V::Char(c) => format!("c:{}", *c as u32),
+        V::Str(s) => format!("s:{}", hx(s)),
+        V::Bytes(b) => format!("b:{}", hex(b)),
+        V::Unit => "unit".into(),
+        V::None => "none".into(),
+        V::Some(v) => format!("some({})", val_text(v)),
+        V::Tup(vs) => format!("tup({})", join(vs, val_text)),
+        V::Seq(vs) => format!("seq({})", join(vs, val_text)),
+        V::Map(kvs) => format!("map({})", join(kvs, |kv| format!("{},{}", val_text(&kv.0), val_text(&kv.1)))),
+        V::Struct(n, fs) => format!("st:{}({})", hx(n), join(fs, |f| format!("{}:{}", hx(f.0), val_text(&f.1)))),
+        V::UnitStruct(n) => format!("us:{}", hx(n)),
+        V::Newtype(n, v) => format!("nt:{}({})", hx(n), val_text(v)),
+        V::TupleStruct(n, vs) => format!("ts:{}({})", hx(n), join(vs, val_text)),
+        V::ExStruct(n, fs) => format!("ex:{}({})", hx(n), join(fs, |f| format!("{}:{}", hx(f.0), val_text(&f.1)))),
+        V::Variant(e, vn, _, p) => format!("en:{}:{}({})", hx(e), hx(vn), val_text(p)),
+    }
+}
+
+// ------------------------------------------------------------------------------------------------
+// Serialize: the calls the std / derived impls make
+// ------------------------------------------------------------------------------------------------
+
+impl Serialize for V {
+    fn serialize<S: serde::Serializer>(&self, s: S) -> Result<S::Ok, S::Error> {
+        match self {
+            V::Int(k, i) => match k {
+                IntTy::I8 => s.serialize_i8(*i as i8),
+                IntTy::I16 => s.serialize_i16(*i as i16),
+                IntTy::I32 => s.serialize_i32(*i as i32),
+                IntTy::I64 => s.serialize_i64(*i as i64),
+                IntTy::U8 => s.serialize_u8(*i as u8),
+                IntTy::U16 => s.serialize_u16(*i as u16),
+                IntTy::U32 => s.serialize_u32(*i as u32),
+                IntTy::U64 => s.serialize_u64(*i as u64),
+            },
+            V::F32(b) => s.serialize_f32(f32::from_bits(*b)),
+            V::F64(b) => s.serialize_f64(f64::from_bits(*b)),
+            V::Bool(b) => s.serialize_bool(*b),
+            V::Char(c) => s.serialize_char(*c),
+            V::Str(x) => s.serialize_str(x),
+            V::Bytes(b) => s.serialize_bytes(b),
+            V::Unit => s.serialize_unit(),
+            V::None => s.serialize_none(),
+            V::Some(v) => s.serialize_some(&**v),
+            V::Tup(vs) => {
+                let mut t = s.serialize_tuple(vs.len())?;
+                for v in vs {
+                    t.serialize_element(v)?;
+                }
+                t.end()
+            }
+            V::Seq(vs) => {
+                let mut t = s.serialize_seq(Some(vs.len()))?;
+                for v in vs {
+                    t.serialize_element(v)?;
+                }
+                t.end()
+            }
+            V::Map(kvs) => {
+                let mut m = s.serialize_map(Some(kvs.len()))?;
+                for (k, v) in kvs {
+                    m.serialize_entry(k, v)?;
+                }
+                m.end()
+            }
+            V::Struct(n, fs) => {
+                let mut st = s.serialize_struct(n, fs.len())?;
+                for (f, v) in fs {
+                    st.serialize_field(f, v)?;
+                }
+                st.end()
+            }
+            V::UnitStruct(n) => s.serialize_unit_struct(n),
+            V::Newtype(n, v) => s.serialize_newtype_struct(n, &**v),
+            V::TupleStruct(n, vs) => {
+                let mut t = s.serialize_tuple_struct(n, vs.len())?;
+                for v in vs {
+                    t.serialize_field(v)?;
+                }
+                t.end()
+            }
+            V::ExStruct(module, fs) => {
+                // what `derive(ElixirStruct)` generates
+                let full = format!("Elixir.{}", module);
+                let mut m = s.serialize_map(Some(fs.len() + 1))?;
+                m.serialize_entry(&erltf_serde::elixir::AtomKey("__struct__"), &erltf_serde::elixir::AtomValue(&full))?;
+                for (f, v) in fs {
+                    m.serialize_entry(&erltf_serde::elixir::AtomKey(f), v)?;
+                }
+                m.end()
+            }
+            V::Variant(e, vn, idx, p) => match &**p {
+                V::Unit => s.serialize_unit_variant(e, *idx, vn),
+                V::Newtype(_, v) => s.serialize_newtype_variant(e, *idx, vn, &**v),
+                V::Tup(vs) => {
+                    let mut t = s.serialize_tuple_variant(e, *idx, vn, vs.len())?;
+                    for v in vs {
+                        t.serialize_field(v)?;
+                    }
+                    t.end()
+                }
+                V::Struct(_, fs) => {
+                    let mut t = s.serialize_struct_variant(e, *idx, vn, fs.len())?;
+                    for (f, v) in fs {
+                        t.serialize_field(f, v)?;
+                    }
+                    t.end()
+                }
+                _ => Err(ser::Error::custom("bad variant payload")),
+            },
+        }
+    }
+}
+
+// ------------------------------------------------------------------------------------------------
+// Deserialize: `&Ty` as a seed, calling what the std / derived `Deserialize` impls call
+// ------------------------------------------------------------------------------------------------
+
+fn custom<E: de::Error>(s: &str) -> E {
+    E::custom(s)
+}
+
+/// serde's primitive integer visitors: any `visit_iN/uN` is accepted when the value fits the target
+struct IntVis(IntTy);
+impl<'de> Visitor<'de> for IntVis {
+    type Value = V;
+    fn expecting(&self, f: &mut fmt::Formatter) -> fmt::Result {
+        f.write_str("integer")
+    }
+    fn visit_i8<E: de::Error>(self, v: i8) -> Result<V, E> {
+        self.visit_i64(v as i64)
+    }
+    fn visit_i16<E: de::Error>(self, v: i16) -> Result<V, E> {
+        self.visit_i64(v as i64)
+    }
+    fn visit_i32<E: de::Error>(self, v: i32) -> Result<V, E> {
+        self.visit_i64(v as i64)
+    }
+    fn visit_i64<E: de::Error>(self, v: i64) -> Result<V, E> {
+        if self.0.fits(v as i128) { Ok(V::Int(self.0, v as i128)) } else { Err(custom("int out of range")) }
+    }
+    fn visit_u8<E: de::Error>(self, v: u8) -> Result<V, E> {
+        self.visit_u64(v as u64)
+    }
+    fn visit_u16<E: de::Error>(self, v: u16) -> Result<V, E> {
+        self.visit_u64(v as u64)
+    }
+    fn visit_u32<E: de::Error>(self, v: u32) -> Result<V, E> {
+        self.visit_u64(v as u64)
+    }
+    fn visit_u64<E: de::Error>(self, v: u64) -> Result<V, E> {
+        if self.0.fits(v as i128) { Ok(V::Int(self.0, v as i128)) } else { Err(custom("int out of range")) }
+    }
+}
+
+struct LeafVis(Ty);
+impl<'de> Visitor<'de> for LeafVis {
+    type Value = V;
+    fn expecting(&self, f: &mut fmt::Formatter) -> fmt::Result {
+        write!(f, "{}", ty_text(&self.0))
+    }
+    fn visit_f32<E: de::Error>(self, v: f32) -> Result<V, E> {
+        match self.0 {
+            Ty::F32 => Ok(V::F32(v.to_bits())),
+            Ty::F64 => Ok(V::F64((v as f64).to_bits())),
+            _ => Err(custom("unexpected f32")),
+        }
+    }
+    fn visit_f64<E: de::Error>(self, v: f64) -> Result<V, E> {
+        match self.0 {
+            Ty::F32 => Ok(V::F32((v as f32).to_bits())),
+            Ty::F64 => Ok(V::F64(v.to_bits())),
+            _ => Err(custom("unexpected f64")),
+        }
+    }
+    fn visit_bool<E: de::Error>(self, v: bool) -> Result<V, E> {
+        match self.0 {
+            Ty::Bool => Ok(V::Bool(v)),
+            _ => Err(custom("unexpected bool")),
+        }
+    }
+    fn visit_char<E: de::Error>(self, v: char) -> Result<V, E> {
+        match self.0 {
+            Ty::Char => Ok(V::Char(v)),
+            Ty::Str => Ok(V::Str(v.to_string())),
+            _ => Err(custom("unexpected char")),
+        }
+    }
+    fn visit_str<E: de::Error>(self, v: &str) -> Result<V, E> {
+        match self.0 {
+            Ty::Str => Ok(V::Str(v.to_string())),
+            Ty::Bytes => Ok(V::Bytes(v.as_bytes().to_vec())),
+            Ty::Char => {
+                let mut it = v.chars();
+                match (it.next(), it.next()) {
+                    (Some(c), None) => Ok(V::Char(c)),
+                    _ => Err(custom("expected one char")),
+                }
+            }
+            _ => Err(custom("unexpected str")),
+        }
+    }
+    fn visit_bytes<E: de::Error>(self, v: &[u8]) -> Result<V, E> {
+        match self.0 {
+            Ty::Bytes => Ok(V::Bytes(v.to_vec())),
+            Ty::Str => match std::str::from_utf8(v) {
+                Ok(s) => Ok(V::Str(s.to_string())),
+                Err(_) => Err(custom("invalid utf-8")),
+            },
+            _ => Err(custom("unexpected bytes")),
+        }
+    }
+    fn visit_unit<E: de::Error>(self) -> Result<V, E> {
+        match self.0 {
+            Ty::Unit => Ok(V::Unit),
+            Ty::UnitStruct(n) => Ok(V::UnitStruct(n)),
+            Ty::Opt(_) => Ok(V::None),
+            _ => Err(custom("unexpected unit")),
+        }
+    }
+    fn visit_none<E: de::Error>(self) -> Result<V, E> {
+        match self.0 {
+            Ty::Opt(_) => Ok(V::None),
+            _ => Err(custom("unexpected none")),
+        }
+    }
+    fn visit_some<D: serde::Deserializer<'de>>(self, d: D) -> Result<V, D::Error> {
+        match &self.0 {
+            Ty::Opt(t) => Ok(V::Some(Box::new((&**t).deserialize(d)?))),
+            _ => Err(custom("unexpected some")),
+        }
+    }
+    fn visit_newtype_struct<D: serde::Deserializer<'de>>(self, d: D) -> Result<V, D::Error> {
+        match &self.0 {
+            Ty::Newtype(n, t) => Ok(V::Newtype(n, Box::new((&**t).deserialize(d)?))),
+            _ => Err(custom("unexpected newtype")),
+        }
+    }
+    fn visit_seq<A: SeqAccess<'de>>(self, mut seq: A) -> Result<V, A::Error> {
+        fn fixed<'de, A: SeqAccess<'de>>(ts: &[Ty], seq: &mut A) -> Result<Vec<V>, A::Error> {
+            let mut out = Vec::new();
+            for t in ts {
+                match seq.next_element_seed(t)? {
+                    Some(v) => out.push(v),
+                    None => return Err(custom("invalid length")),
+                }
+            }
+            Ok(out)
+        }
+        match &self.0 {
+            Ty::Seq(t) => {
+                let mut out = Vec::new();
+                while let Some(v) = seq.next_element_seed(&**t)? {
+                    out.push(v);
+                }
+                Ok(V::Seq(out))
+            }
+            Ty::Tup(ts) => Ok(V::Tup(fixed(ts, &mut seq)?)),
+            Ty::TupleStruct(n, ts) => Ok(V::TupleStruct(n, fixed(ts, &mut seq)?)),
+            Ty::Newtype(n, t) => match seq.next_element_seed(&**t)? {
+                Some(v) => Ok(V::Newtype(n, Box::new(v))),
+                None => Err(custom("invalid length")),
+            },
+            _ => Err(custom("unexpected seq")),
+        }
+    }
+    fn visit_map<A: MapAccess<'de>>(self, mut map: A) -> Result<V, A::Error> {
+        match &self.0 {
+            Ty::Map(k, v) => {
+                let mut out = Vec::new();
+                while let Some(key) = map.next_key_seed(&**k)? {
+                    let val = map.next_value_seed(&**v)?;
+                    out.push((key, val));
+                }
+                Ok(V::Map(out))
+            }
+            Ty::Struct(n, fs) => Ok(V::Struct(n, struct_fields(fs, &mut map)?)),
+            Ty::ExStruct(module, fs) => {
+                // what `derive(ElixirStruct)` generates
+                let full = format!("Elixir.{}", module);
+                let mut slots: Vec<Option<V>> = fs.iter().map(|_| None).collect();
+                while let Some(key) = map.next_key::<std::borrow::Cow<'de, str>>()? {
+                    if key.as_ref() == "__struct__" {
+                        let m: std::borrow::Cow<'de, str> = map.next_value()?;
+                        if m.as_ref() != full {
+                            return Err(custom("wrong __struct__"));
+                        }
+                    } else if let Some(i) = fs.iter().position(|f| f.0 == key.as_ref()) {
+                        slots[i] = Some(map.next_value_seed(&fs[i].1)?);
+                    } else {
+                        let _: de::IgnoredAny = map.next_value()?;
+                    }
+                }
+                let mut out = Vec::new();
+                for (i, s) in slots.into_iter().enumerate() {
+                    match s {
+                        Some(v) => out.push((fs[i].0, v)),
+                        None => return Err(custom("missing field")),
+                    }
+                }
+                Ok(V::ExStruct(module, out))
+            }
+            _ => Err(custom("unexpected map")),
+        }
+    }
+    fn visit_enum<A: EnumAccess<'de>>(self, data: A) -> Result<V, A::Error> {
+        match &self.0 {
+            Ty::Enum(en, vs) => {
+                let (idx, variant) = data.variant_seed(IdentSeed(vs.iter().map(|v| v.0).collect(), false))?;
+                let idx = idx.ok_or_else(|| custom::<A::Error>("unknown variant"))?;
+                let (vn, shape) = &vs[idx];
+                let payload = match shape {
+                    Ty::Unit => {
+                        variant.unit_variant()?;
+                        V::Unit
+                    }
+                    Ty::Newtype(_, t) => V::Newtype("", Box::new(variant.newtype_variant_seed(&**t)?)),
+                    Ty::Tup(ts) => variant.tuple_variant(ts.len(), LeafVis(Ty::Tup(ts.clone())))?,
+                    Ty::Struct(_, fs) => {
+                        let names = intern_list(fs.iter().map(|f| f.0).collect());
+                        variant.struct_variant(names, LeafVis(Ty::Struct("", fs.clone())))?
+                    }
+                    _ => return Err(custom("bad shape")),
+                };
+                Ok(V::Variant(en, vn, idx as u32, Box::new(payload)))
+            }
+            _ => Err(custom("unexpected enum")),
+        }
+    }
+}
+
+/// the `visit_map` of a `#[derive(Deserialize)]` struct
+fn struct_fields<'de, A: MapAccess<'de>>(fs: &[(Name, Ty)], map: &mut A) -> Result<Vec<(Name, V)>, A::Error> {
+    let mut slots: Vec<Option<V>> = fs.iter().map(|_| None).collect();
+    while let Some(k) = map.next_key_seed(IdentSeed(fs.iter().map(|f| f.0).collect(), true))? {
+        match k {
+            Some(i) => {
+                if slots[i].is_some() {
+                    return Err(custom("duplicate field"));
+                }
+                slots[i] = Some(map.next_value_seed(&fs[i].1)?);
+            }
+            None => {
+                let _: de::IgnoredAny = map.next_value()?;
+            }
+        }
+    }
+    let mut out = Vec::new();
+    for (i, s) in slots.into_iter().enumerate() {
+        match s {
+            Some(v) => out.push((fs[i].0, v)),
+            // serde::__private::de::missing_field: `None` for an Option, an error otherwise
+            None => match fs[i].1 {
+                Ty::Opt(_) => out.push((fs[i].0, V::None)),
+                _ => return Err(custom("missing field")),
+            },
+        }
+    }
+    Ok(out)
+}
+
+/// the generated `__Field` identifier: index of the name; unknown names are ignored (fields) or an error (variants)
+struct IdentSeed(Vec<Name>, bool);
+impl<'de> DeserializeSeed<'de> for IdentSeed {
+    type Value = Option<usize>;
+    fn deserialize<D: serde::Deserializer<'de>>(self, d: D) -> Result<Option<usize>, D::Error> {
+        d.deserialize_identifier(self)
+    }
+}
+impl<'de> Visitor<'de> for IdentSeed {
+    type Value = Option<usize>;
+    fn expecting(&self, f: &mut fmt::Formatter) -> fmt::Result {
+        f.write_str("identifier")
+    }
+    fn visit_u64<E: de::Error>(self, v: u64) -> Result<Option<usize>, E> {
+        if (v as usize) < self.0.len() {
+            Ok(Some(v as usize))
+        } else if self.1 {
+            Ok(None)
+        } else {
+            Err(custom("bad variant index"))
+        }
+    }
+    fn visit_str<E: de::Error>(self, v: &str) -> Result<Option<usize>, E> {
+        match self.0.iter().position(|n| *n == v) {
+            Some(i) => Ok(Some(i)),
+            None if self.1 => Ok(None),
+            None => Err(custom("unknown variant")),
+        }
+    }
+    fn visit_bytes<E: de::Error>(self, v: &[u8]) -> Result<Option<usize>, E> {
+        match self.0.iter().position(|n| n.as_bytes() == v) {
+            Some(i) => Ok(Some(i)),
+            None if self.1 => Ok(None),
+            None => Err(custom("unknown variant")),
+        }
+    }
+}
+
+impl<'de> DeserializeSeed<'de> for &Ty {
+    type Value = V;
+    fn deserialize<D: serde::Deserializer<'de>>(self, d: D) -> Result<V, D::Error> {
+        let vis = LeafVis(self.clone());
+        match self {
+            Ty::Int(k) => match k {
+                IntTy::I8 => d.deserialize_i8(IntVis(*k)),
+                IntTy::I16 => d.deserialize_i16(IntVis(*k)),
+                IntTy::I32 => d.deserialize_i32(IntVis(*k)),
+                IntTy::I64 => d.deserialize_i64(IntVis(*k)),
+                IntTy::U8 => d.deserialize_u8(IntVis(*k)),
+                IntTy::U16 => d.deserialize_u16(IntVis(*k)),
+                IntTy::U32 => d.deserialize_u32(IntVis(*k)),
+                IntTy::U64 => d.deserialize_u64(IntVis(*k)),
+            },
+            Ty::F32 => d.deserialize_f32(vis),
+            Ty::F64 => d.deserialize_f64(vis),
+            Ty::Bool => d.deserialize_bool(vis),
+            Ty::Char => d.deserialize_char(vis),
+            Ty::Str => d.deserialize_string(vis),
+            Ty::Bytes => d.deserialize_byte_buf(vis),
+            Ty::Unit => d.deserialize_unit(vis),
+            Ty::Opt(_) => d.deserialize_option(vis),
+            Ty::Tup(ts) => d.deserialize_tuple(ts.len(), vis),
+            Ty::Seq(_) => d.deserialize_seq(vis),
+            Ty::Map(_, _) => d.deserialize_map(vis),
+            Ty::Struct(n, fs) => d.deserialize_struct(n, intern_list(fs.iter().map(|f| f.0).collect()), vis),
+            Ty::UnitStruct(n) => d.deserialize_unit_struct(n, vis),
+            Ty::Newtype(n, _) => d.deserialize_newtype_struct(n, vis),
+            Ty::TupleStruct(n, ts) => d.deserialize_tuple_struct(n, ts.len(), vis),
+            Ty::ExStruct(_, _) => d.deserialize_map(vis),
+            Ty::Enum(n, vs) => d.deserialize_enum(n, intern_list(vs.iter().map(|f| f.0).collect()), vis),
+        }
+    }
+}
+
+/// top-level carrier: the type comes from `CUR_TY`
+pub struct Dyn(pub V);
+impl<'de> Deserialize<'de> for Dyn {
+    fn deserialize<D: serde::Deserializer<'de>>(d: D) -> Result<Self, D::Error> {
+        let ty = CUR_TY.with(|c| c.borrow().clone()).expect("CUR_TY");
+        (&ty).deserialize(d).map(Dyn)
+    }
+}
+
+fn res_text(r: std::thread::Result<Result<V, erltf_serde::Error>>) -> String {
+    match r {
+        Ok(Ok(v)) => format!("ok {}", val_text(&v)),
+        Ok(Err(_)) => "err".into(),
+        Err(_) => "panic".into(),
+    }
+}
+
+pub fn dyn_from_term(ty: &Ty, t: &OwnedTerm) -> String {
+    CUR_TY.with(|c| *c.borrow_mut() = Some(ty.clone()));
+    res_text(std::panic::catch_unwind(|| erltf_serde::from_term::<Dyn>(t).map(|d| d.0)))
+}
+
+pub fn dyn_from_bytes(ty: &Ty, b: &[u8]) -> String {
+    CUR_TY.with(|c| *c.borrow_mut() = Some(ty.clone()));
+    res_text(std::panic::catch_unwind(|| erltf_serde::from_bytes::<Dyn>(b).map(|d| d.0)))
+}
+
+// ------------------------------------------------------------------------------------------------
+// generators
+// ------------------------------------------------------------------------------------------------
+
+const NAMES: &[&str] = &[
+    "a", "b", "c", "id", "name", "value", "x", "y", "ok", "error", "Some", "None", "Foo", "Bar", "é", "日本", "k1", "k2",
+    "undefined", "nil", "true", "false", "A", "B", "T", "data", "__x__",
+];
+const MODULES: &[&str] = &["MyApp.User", "Foo", "A.B.C", "M", "Ünï"];
+
+fn gen_name(r: &mut Rng) -> Name {
+    if r.chance(1, 40) {
+        return intern(&"n".repeat(*r.pick(&[255usize, 256, 300])));
+    }
+    intern(*r.pick(NAMES))
+}
+
+fn distinct_names(r: &mut Rng, n: usize, allow_dup: bool) -> Vec<Name> {
+    let mut out: Vec<Name> = Vec::new();
+    while out.len() < n {
+        let c = gen_name(r);
+        if !out.contains(&c) || (allow_dup && r.chance(1, 30)) {
+            out.push(c);
+        }
+    }
+    out
+}
+
+fn gen_fields(r: &mut Rng, depth: u32, ex: bool) -> Vec<(Name, Ty)> {
+    let n = r.below(5) as usize;
+    distinct_names(r, n, false)
+        .into_iter()
+        .filter(|x| !(ex && *x == "__struct__"))
+        .map(|n| (n, gen_ty(r, depth + 1)))
+        .collect()
+}
+
+fn gen_key_ty(r: &mut Rng) -> Ty {
+    match r.below(12) {
+        0..=3 => Ty::Str,
+        4..=8 => Ty::Int(*r.pick(&IntTy::ALL)),
+        9 => Ty::Bool,
+        10 => Ty::Char,
+        _ => Ty::Newtype(gen_name(r), Box::new(Ty::Int(IntTy::U64))),
+    }
+}
+
+pub fn gen_ty(r: &mut Rng, depth: u32) -> Ty {
+    if depth >= 3 || r.chance(2, 5) {
+        return match r.below(17) {
+            0..=7 => Ty::Int(*r.pick(&IntTy::ALL)),
+            8 => Ty::F32,
+            9 => Ty::F64,
+            10 => Ty::Bool,
+            11 => Ty::Char,
+            12 | 13 => Ty::Str,
+            14 => Ty::Bytes,
+            15 => Ty::Unit,
+            _ => Ty::UnitStruct(gen_name(r)),
+        };
+    }
+    match r.below(12) {
+        0 | 1 => {
+            // mostly a payload the format can tell from `None`
+            let mut t = gen_ty(r, depth + 1);
+            if !r.chance(1, 12) {
+                while may_be_undef(&t) {
+                    t = gen_ty(r, depth + 1);
+                }
+            }
+            Ty::Opt(Box::new(t))
+        }
+        2 => Ty::Tup((0..r.range(1, 4)).map(|_| gen_ty(r, depth + 1)).collect()),
+        3 | 4 => Ty::Seq(Box::new(gen_ty(r, depth + 1))),
+        5 => Ty::Map(Box::new(gen_key_ty(r)), Box::new(gen_ty(r, depth + 1))),
+        6 | 7 => Ty::Struct(gen_name(r), gen_fields(r, depth, false)),
+        8 => Ty::Newtype(gen_name(r), Box::new(gen_ty(r, depth + 1))),
+        9 => Ty::TupleStruct(gen_name(r), (0..r.below(4)).map(|_| gen_ty(r, depth + 1)).collect()),
+        10 => Ty::ExStruct(intern(*r.pick(MODULES)), gen_fields(r, depth, true)),
+        _ => {
+            let n = r.range(1, 5) as usize;
+            let vs = distinct_names(r, n, true)
+                .into_iter()
+                .map(|n| {
+                    let shape = match r.below(4) {
+                        0 => Ty::Unit,
+                        1 => Ty::Newtype("", Box::new(gen_ty(r, depth + 1))),
+                        2 => Ty::Tup((0..r.below(4)).map(|_| gen_ty(r, depth + 1)).collect()),
+                        _ => Ty::Struct("", gen_fields(r, depth, false)),
+                    };
+                    (n, shape)
+                })
+                .collect();
+            Ty::Enum(gen_name(r), vs)
+        }
+    }
+}
+
+/// mirror of `Spec.Serde.mayBeUndef`
+fn may_be_undef(t: &Ty) -> bool {
+    match t {
+        Ty::Opt(_) | Ty::Unit => true,
+        Ty::UnitStruct(n) => *n == "undefined",
+        Ty::Newtype(_, t) => may_be_undef(t),
+        Ty::Enum(_, vs) => vs.iter().any(|(n, s)| *n == "undefined" && *s == Ty::Unit),
+        _ => false,
+    }
+}
+
+fn gen_int_val(r: &mut Rng, k: IntTy) -> i128 {
+    const P: &[u32] = &[7, 8, 15, 16, 31, 32, 53, 63, 64];
+    let x: i128 = match r.below(6) {
+        0 => *r.pick(&[k.lo(), k.hi(), 0, 1, -1, k.lo() + 1, k.hi() - 1]),
+        1 | 2 => {
+            let p = 1i128 << *r.pick(P);
+            let d = r.below(3) as i128 - 1;
+            if r.chance(1, 2) { p + d } else { -p + d }
+        }
+        3 => r.below(300) as i128 - 40,
+        4 => ((r.next() >> r.below(64)) as i128) * if r.chance(1, 2) { -1 } else { 1 },
+        _ => r.next() as i64 as i128,
+    };
+    if k.fits(x) {
+        x
+    } else {
+        // fold into range keeping the low bits (still boundary-heavy)
+        let span = k.hi() - k.lo() + 1;
+        k.lo() + (x - k.lo()).rem_euclid(span)
+    }
+}
+
+const CHARS: &[char] = &[
+    'a', 'Z', '0', ' ', '\0', '\u{7f}', '\u{80}', 'é', '\u{7ff}', '\u{800}', '日', '\u{d7ff}', '\u{e000}', '\u{ffff}',
+    '\u{10000}', '😀', '\u{10ffff}',
+];
+
+fn gen_char(r: &mut Rng) -> char {
+    if r.chance(3, 4) {
+        *r.pick(CHARS)
+    } else {
+        loop {
+            if let Some(c) = char::from_u32(r.below(0x110000) as u32) {
+                return c;
+            }
+        }
+    }
+}
+
+fn gen_string(r: &mut Rng) -> String {
+    match r.below(10) {
+        0 => String::new(),
+        1 => r.pick(&["undefined", "nil", "true", "false", "__struct__"]).to_string(),
+        2 => (0..r.range(1, 6)).map(|_| gen_char(r)).collect(),
+        3 if r.chance(1, 10) => "s".repeat(*r.pick(&[255usize, 256, 300, 65536])),
+        _ => (0..r.range(1, 8)).map(|_| (b'a' + r.below(26) as u8) as char).collect(),
+    }
+}
+
+const F32_BITS: &[u32] = &[
+    0, 0x8000_0000, 0x3f80_0000, 0xbf80_0000, 1, 2, 3, 0x007f_ffff, 0x0040_0000, 0x0080_0000, 0x0080_0001, 0x7f7f_ffff,
+    0xff7f_ffff, 0x7f80_0000, 0xff80_0000, 0x3eaa_aaab, 0x4b00_0000, 0x4b7f_ffff, 0x0000_1000, 0x8000_0001,
+];
+
+fn gen_f32(r: &mut Rng) -> u32 {
+    match r.below(8) {
+        0..=2 => *r.pick(F32_BITS),
+        3 if r.chance(1, 3) => *r.pick(&[0x7fc0_0000u32, 0x7f80_0001, 0xffc0_0001, 0x7fff_ffff]),
+        4 => r.below(1 << 23) as u32 | if r.chance(1, 2) { 0x8000_0000 } else { 0 },
+        _ => {
+            let b = r.next() as u32;
+            if f32::from_bits(b).is_nan() { 0x3fc0_0000 } else { b }
+        }
+    }
+}
+
+fn gen_f64(r: &mut Rng) -> u64 {
+    match r.below(10) {
+        0 => *r.pick(&[0x7ff0_0000_0000_0000u64, 0xfff0_0000_0000_0000, 0x7ff8_0000_0000_0000, 0x7ff0_0000_0000_0001]),
+        _ => crate::tgen::gen_float_bits(r, false),
+    }
+}
+
+pub fn gen_val(r: &mut Rng, t: &Ty, depth: u32) -> V {
+    let len = |r: &mut Rng| -> usize {
+        if depth > 2 { r.below(2) as usize } else { *r.pick(&[0usize, 0, 1, 1, 2, 3, 5]) }
+    };
+    match t {
+        Ty::Int(k) => V::Int(*k, gen_int_val(r, *k)),
+        Ty::F32 => V::F32(gen_f32(r)),
+        Ty::F64 => V::F64(gen_f64(r)),
+        Ty::Bool => V::Bool(r.chance(1, 2)),
+        Ty::Char => V::Char(gen_char(r)),
+        Ty::Str => V::Str(gen_string(r)),
+        Ty::Bytes => {
+            let n = *r.pick(&[0usize, 1, 2, 5, 17]);
+            V::Bytes(r.bytes(n))
+        }
+        Ty::Unit => V::Unit,
+        Ty::Opt(t) => {
+            if r.chance(1, 3) { V::None } else { V::Some(Box::new(gen_val(r, t, depth + 1))) }
+        }
+        Ty::Tup(ts) => V::Tup(ts.iter().map(|t| gen_val(r, t, depth + 1)).collect()),
+        Ty::Seq(t) => {
+            let n = len(r);
+            V::Seq((0..n).map(|_| gen_val(r, t, depth + 1)).collect())
+        }
+        Ty::Map(k, v) => {
+            let n = len(r);
+            let raw: Vec<(V, V)> = (0..n).map(|_| (gen_val(r, k, depth + 1), gen_val(r, v, depth + 1))).collect();
+            if r.chance(1, 8) {
+                // as generated: possibly repeated keys, any order (correspondence only)
+                V::Map(raw)
+            } else {
+                // the canonical representative: distinct keys in the order of the serialised keys (the real `Ord`)
+                let mut m: BTreeMap<OwnedTerm, (V, V)> = BTreeMap::new();
+                for (k, v) in raw {
+                    if let Ok(kt) = erltf_serde::to_term(&k) {
+                        m.entry(kt).or_insert((k, v));
+                    }
+                }
+                V::Map(m.into_values().collect())
+            }
+        }
+        Ty::Struct(n, fs) => V::Struct(n, fs.iter().map(|(f, t)| (*f, gen_val(r, t, depth + 1))).collect()),
+        Ty::UnitStruct(n) => V::UnitStruct(n),
+        Ty::Newtype(n, t) => V::Newtype(n, Box::new(gen_val(r, t, depth + 1))),
+        Ty::TupleStruct(n, ts) => V::TupleStruct(n, ts.iter().map(|t| gen_val(r, t, depth + 1)).collect()),
+        Ty::ExStruct(n, fs) => V::ExStruct(n, fs.iter().map(|(f, t)| (*f, gen_val(r, t, depth + 1))).collect()),
+        Ty::Enum(en, vs) => {
+            let i = r.below(vs.len() as u64) as usize;
+            // the first variant with this name is the one a name denotes
+            let i = vs.iter().position(|v| v.0 == vs[i].0).unwrap();
+            let (vn, shape) = &vs[i];
+            let p = match shape {
+                Ty::Unit => V::Unit,
+                Ty::Newtype(_, t) => V::Newtype("", Box::new(gen_val(r, t, depth + 1))),
+                Ty::Tup(ts) => V::Tup(ts.iter().map(|t| gen_val(r, t, depth + 1)).collect()),
+                Ty::Struct(_, fs) => V::Struct("", fs.iter().map(|(f, t)| (*f, gen_val(r, t, depth + 1))).collect()),
+                _ => V::Unit,
+            };
+            V::Variant(en, vn, i as u32, Box::new(p))
+        }
+    }
+}
+
+/// does the value contain something the current code loses across the wire?  (mirror of `Spec.Serde.wireSafe`)
+fn wire_unsafe(v: &V) -> (bool, bool) {
+    // (has a char, has a non-u64 integer outside the i32 range)
+    let mut c = false;
+    let mut w = false;
+    let mut add = |x: (bool, bool)| {
+        c |= x.0;
+        w |= x.1;
+    };
+    match v {
+        V::Char(_) => c = true,
+        V::Int(k, i) => w = *k != IntTy::U64 && !IntTy::I32.fits(*i),
+        V::Some(v) | V::Newtype(_, v) | V::Variant(_, _, _, v) => add(wire_unsafe(v)),
+        V::Tup(vs) | V::Seq(vs) | V::TupleStruct(_, vs) => vs.iter().for_each(|v| add(wire_unsafe(v))),
+        V::Map(kvs) => kvs.iter().for_each(|(k, v)| {
+            add(wire_unsafe(k));
+            add(wire_unsafe(v))
+        }),
+        V::Struct(_, fs) | V::ExStruct(_, fs) => fs.iter().for_each(|(_, v)| add(wire_unsafe(v))),
+        _ => {}
+    }
+    (c, w)
+}
+
+// ------------------------------------------------------------------------------------------------
+// term mutations: reach the acceptance and error paths of the deserialiser
+// ------------------------------------------------------------------------------------------------
+
+fn text_variants(r: &mut Rng, s: &str) -> OwnedTerm {
+    match r.below(3) {
+        0 => OwnedTerm::Atom(Atom::new(s)),
+        1 => OwnedTerm::String(s.to_string()),
+        _ => OwnedTerm::Binary(s.as_bytes().to_vec()),
+    }
+}
+
+fn as_text(t: &OwnedTerm) -> Option<String> {
+    match t {
+        OwnedTerm::Atom(a) => Some(a.as_str().to_string()),
+        OwnedTerm::String(s) => Some(s.clone()),
+        OwnedTerm::Binary(b) => std::str::from_utf8(b).ok().map(|s| s.to_string()),
+        _ => None,
+    }
+}
+
+fn small_leaf(r: &mut Rng) -> OwnedTerm {
+    match r.below(12) {
+        0 => OwnedTerm::Integer(crate::tgen::gen_int(r)),
+        1 => OwnedTerm::BigInt(BigInt::new(r.chance(1, 3), {
+            let n = *r.pick(&[0usize, 1, 4, 8, 8, 9]);
+            r.bytes(n)
+        })),
+        2 => OwnedTerm::Float(f64::from_bits(gen_f64(r))),
+        3 => OwnedTerm::Atom(Atom::new(*r.pick(NAMES))),
+        4 => OwnedTerm::Binary(r.bytes(3)),
+        5 => OwnedTerm::Binary(gen_string(r).into_bytes()),
+        6 => OwnedTerm::String(gen_string(r)),
+        7 => OwnedTerm::Nil,
+        8 => OwnedTerm::List(vec![]),
+        9 => OwnedTerm::Tuple(vec![]),
+        10 => OwnedTerm::Map(BTreeMap::new()),
+        _ => OwnedTerm::Integer(r.below(4) as i64),
+    }
+}
+
+pub fn mutate(r: &mut Rng, t: &OwnedTerm) -> OwnedTerm {
+    // descend with some probability, otherwise rewrite here
+    let descend = r.chance(3, 5);
+    match t {
+        OwnedTerm::List(l) if descend && !l.is_empty() => {
+            let mut l = l.clone();
+            let i = r.below(l.len() as u64) as usize;
+            l[i] = mutate(r, &l[i]);
+            return OwnedTerm::List(l);
+        }
+        OwnedTerm::Tuple(l) if descend && !l.is_empty() => {
+            let mut l = l.clone();
+            let i = r.below(l.len() as u64) as usize;
+            l[i] = mutate(r, &l[i]);
+            return OwnedTerm::Tuple(l);
+        }
+        OwnedTerm::Map(m) if descend && !m.is_empty() => {
+            let mut m = m.clone();
+            let i = r.below(m.len() as u64) as usize;
+            let (k, v) = m.iter().nth(i).map(|(k, v)| (k.clone(), v.clone())).unwrap();
+            if r.chance(1, 2) {
+                m.insert(k, mutate(r, &v));
+            } else {
+                m.remove(&k);
+                m.insert(mutate(r, &k), v);
+            }
+            return OwnedTerm::Map(m);
+        }
+        _ => {}
+    }
+    match t {
+        OwnedTerm::Integer(i) => match r.below(4) {
+            0 if *i >= 0 => {
+                let mut d = (*i as u64).to_le_bytes().to_vec();
+                if r.chance(1, 2) {
+                    while d.last() == Some(&0) {
+                        d.pop();
+                    }
+                }
+                OwnedTerm::BigInt(BigInt::new(false, d))
+            }
+            1 => OwnedTerm::Integer(i.wrapping_add(*r.pick(&[1i64, -1, 256, -256, 1 << 32]))),
+            2 => OwnedTerm::Float(*i as f64),
+            _ => small_leaf(r),
+        },
+        OwnedTerm::BigInt(b) => match r.below(3) {
+            0 => OwnedTerm::BigInt(BigInt::new(!b.sign.is_negative(), b.digits.clone())),
+            1 => {
+                let mut d = b.digits.clone();
+                d.push(r.below(2) as u8);
+                OwnedTerm::BigInt(BigInt::new(b.sign.is_negative(), d))
+            }
+            _ => small_leaf(r),
+        },
+        OwnedTerm::Atom(_) | OwnedTerm::Binary(_) | OwnedTerm::String(_) => match (r.below(5), as_text(t)) {
+            (0..=2, Some(s)) => text_variants(r, &s),
+            (3, Some(s)) => OwnedTerm::Tuple(vec![text_variants(r, &s)]),
+            (3, None) => OwnedTerm::String(String::new()),
+            _ => small_leaf(r),
+        },
+        OwnedTerm::List(l) => match r.below(5) {
+            0 => OwnedTerm::Tuple(l.clone()),
+            1 => OwnedTerm::Nil,
+            2 => {
+                let mut l = l.clone();
+                l.push(small_leaf(r));
+                OwnedTerm::List(l)
+            }
+            3 => {
+                let mut l = l.clone();
+                l.pop();
+                OwnedTerm::List(l)
+            }
+            _ => small_leaf(r),
+        },
+        OwnedTerm::Nil => OwnedTerm::List(vec![]),
+        OwnedTerm::Tuple(l) => match r.below(6) {
+            0 => OwnedTerm::List(l.clone()),
+            1 | 2 => {
+                let mut l = l.clone();
+                l.push(small_leaf(r));
+                OwnedTerm::Tuple(l)
+            }
+            3 => {
+                let mut l = l.clone();
+                l.pop();
+                OwnedTerm::Tuple(l)
+            }
+            4 if l.len() == 1 => l[0].clone(),
+            _ => small_leaf(r),
+        },
+        OwnedTerm::Map(m) => {
+            let mut m = m.clone();
+            match r.below(6) {
+                0 | 1 => {
+                    // the same key text in another representation (a second entry for the field)
+                    if let Some((k, v)) = m.iter().nth(r.below(m.len().max(1) as u64) as usize).map(|(k, v)| (k.clone(), v.clone())) {
+                        if let Some(s) = as_text(&k) {
+                            let v2 = if r.chance(1, 2) { v } else { small_leaf(r) };
+                            m.insert(text_variants(r, &s), v2);
+                        }
+                    }
+                }
+                2 => {
+                    let nm = *r.pick(NAMES);
+                    m.insert(text_variants(r, nm), small_leaf(r));
+                }
+                3 => {
+                    m.insert(small_leaf(r), small_leaf(r));
+                }
+                4 => {
+                    if let Some(k) = m.keys().nth(r.below(m.len().max(1) as u64) as usize).cloned() {
+                        m.remove(&k);
+                    }
+                }
+                _ => {
+                    let md = format!("Elixir.{}", r.pick(MODULES));
+                    m.insert(text_variants(r, "__struct__"), text_variants(r, &md));
+                }
+            }
+            OwnedTerm::Map(m)
+        }
+        _ => small_leaf(r),
+    }
+}
+
+// ------------------------------------------------------------------------------------------------
+// Reflect: any `T: Serialize` of the universe -> `V` (independent of erltf_serde; used for the derived types)
+// ------------------------------------------------------------------------------------------------
+
+#[derive(Debug)]
+pub struct RErr(String);
+impl fmt::Display for RErr {
+    fn fmt(&self, f: &mut fmt::Formatter) -> fmt::Result {
+        f.write_str(&self.0)
+    }
+}
+impl std::error::Error for RErr {}
+impl ser::Error for RErr {
+    fn custom<T: fmt::Display>(m: T) -> Self {
+        RErr(m.to_string())
+    }
+}
+
+pub struct Reflect;
+pub struct Acc {
+    kind: u8, // 0 seq, 1 tuple, 2 tuple struct, 3 tuple variant, 4 map, 5 struct, 6 struct variant
+    name: Name,
+    vname: Name,
+    idx: u32,
+    items: Vec<V>,
+    fields: Vec<(Name, V)>,
+    entries: Vec<(V, V)>,
+    key: Option<V>,
+}
+fn acc(kind: u8, name: Name, vname: Name, idx: u32) -> Acc {
+    Acc { kind, name, vname, idx, items: vec![], fields: vec![], entries: vec![], key: None }
+}
+
+pub fn reflect<T: Serialize + ?Sized>(x: &T) -> V {
+    x.serialize(Reflect).expect("reflect")
+}
+
+impl serde::Serializer for Reflect {
+    type Ok = V;
+    type Error = RErr;
+    type SerializeSeq = Acc;
+    type SerializeTuple = Acc;
+    type SerializeTupleStruct = Acc;
+    type SerializeTupleVariant = Acc;
+    type SerializeMap = Acc;
+    type SerializeStruct = Acc;
+    type SerializeStructVariant = Acc;
+    fn serialize_bool(self, v: bool) -> Result<V, RErr> {
+        Ok(V::Bool(v))
+    }
+    fn serialize_i8(self, v: i8) -> Result<V, RErr> {
+        Ok(V::Int(IntTy::I8, v as i128))
+    }
+    fn serialize_i16(self, v: i16) -> Result<V, RErr> {
+        Ok(V::Int(IntTy::I16, v as i128))
+    }
+    fn serialize_i32(self, v: i32) -> Result<V, RErr> {
+        Ok(V::Int(IntTy::I32, v as i128))
+    }
+    fn serialize_i64(self, v: i64) -> Result<V, RErr> {
+        Ok(V::Int(IntTy::I64, v as i128))
+    }
+    fn serialize_u8(self, v: u8) -> Result<V, RErr> {
+        Ok(V::Int(IntTy::U8, v as i128))
+    }
+    fn serialize_u16(self, v: u16) -> Result<V, RErr> {
+        Ok(V::Int(IntTy::U16, v as i128))
+    }
+    fn serialize_u32(self, v: u32) -> Result<V, RErr> {
+        Ok(V::Int(IntTy::U32, v as i128))
+    }
+    fn serialize_u64(self, v: u64) -> Result<V, RErr> {
+        Ok(V::Int(IntTy::U64, v as i128))
+    }
+    fn serialize_f32(self, v: f32) -> Result<V, RErr> {
+        Ok(V::F32(v.to_bits()))
+    }
+    fn serialize_f64(self, v: f64) -> Result<V, RErr> {
+        Ok(V::F64(v.to_bits()))
+    }
+    fn serialize_char(self, v: char) -> Result<V, RErr> {
+        Ok(V::Char(v))
+    }
+    fn serialize_str(self, v: &str) -> Result<V, RErr> {
+        Ok(V::Str(v.to_string()))
+    }
+    fn serialize_bytes(self, v: &[u8]) -> Result<V, RErr> {
+        Ok(V::Bytes(v.to_vec()))
+    }
+    fn serialize_none(self) -> Result<V, RErr> {
+        Ok(V::None)
+    }
+    fn serialize_some<T: ?Sized + Serialize>(self, v: &T) -> Result<V, RErr> {
+        Ok(V::Some(Box::new(v.serialize(Reflect)?)))
+    }
+    fn serialize_unit(self) -> Result<V, RErr> {
+        Ok(V::Unit)
+    }
+    fn serialize_unit_struct(self, n: Name) -> Result<V, RErr> {
+        Ok(V::UnitStruct(n))
+    }
+    fn serialize_unit_variant(self, n: Name, i: u32, v: Name) -> Result<V, RErr> {
+        Ok(V::Variant(n, v, i, Box::new(V::Unit)))
+    }
+    fn serialize_newtype_struct<T: ?Sized + Serialize>(self, n: Name, v: &T) -> Result<V, RErr> {
+        Ok(V::Newtype(n, Box::new(v.serialize(Reflect)?)))
+    }
+    fn serialize_newtype_variant<T: ?Sized + Serialize>(self, n: Name, i: u32, vn: Name, v: &T) -> Result<V, RErr> {
+        Ok(V::Variant(n, vn, i, Box::new(V::Newtype("", Box::new(v.serialize(Reflect)?)))))
+    }
+    fn serialize_seq(self, _l: Option<usize>) -> Result<Acc, RErr> {
+        Ok(acc(0, "", "", 0))
+    }
+    fn serialize_tuple(self, _l: usize) -> Result<Acc, RErr> {
+        Ok(acc(1, "", "", 0))
+    }
+    fn serialize_tuple_struct(self, n: Name, _l: usize) -> Result<Acc, RErr> {
+        Ok(acc(2, n, "", 0))
+    }
+    fn serialize_tuple_variant(self, n: Name, i: u32, v: Name, _l: usize) -> Result<Acc, RErr> {
+        Ok(acc(3, n, v, i))
+    }
+    fn serialize_map(self, _l: Option<usize>) -> Result<Acc, RErr> {
+        Ok(acc(4, "", "", 0))
+    }
+    fn serialize_struct(self, n: Name, _l: usize) -> Result<Acc, RErr> {
+        Ok(acc(5, n, "", 0))
+    }
+    fn serialize_struct_variant(self, n: Name, i: u32, v: Name, _l: usize) -> Result<Acc, RErr> {
+        Ok(acc(6, n, v, i))
+    }
+}
+
+impl Acc {
+    fn finish(self) -> Result<V, RErr> {
+        Ok(match self.kind {
+            0 => V::Seq(self.items),
+            1 => V::Tup(self.items),
+            2 => V::TupleStruct(self.name, self.items),
+            3 => V::Variant(self.name, self.vname, self.idx, Box::new(V::Tup(self.items))),
+            4 => {
+                // `derive(ElixirStruct)`: keys are `AtomKey` markers, the first one is `__struct__`
+                let is_ex = !self.entries.is_empty()
+                    && self.entries.iter().all(|(k, _)| matches!(k, V::Newtype(n, _) if *n == erltf_serde::elixir::ATOM_KEY_MARKER));
+                if is_ex {
+                    let mut module = "";
+                    let mut fs = Vec::new();
+                    for (k, v) in self.entries {
+                        let key = match k {
+                            V::Newtype(_, b) => match *b {
+                                V::Str(s) => s,
+                                _ => return Err(RErr("atom key".into())),
+                            },
+                            _ => unreachable!(),
+                        };
+                        if key == "__struct__" {
+                            match v {
+                                V::Newtype(_, b) => match *b {
+                                    V::Str(s) => module = intern(s.strip_prefix("Elixir.").unwrap_or(&s)),
+                                    _ => return Err(RErr("atom value".into())),
+                                },
+                                _ => return Err(RErr("atom value".into())),
+                            }
+                        } else {
+                            fs.push((intern(&key), v));
+                        }
+                    }
+                    V::ExStruct(module, fs)
+                } else {
+                    V::Map(self.entries)
+                }
+            }
+            5 => V::Struct(self.name, self.fields),
+            _ => V::Variant(self.name, self.vname, self.idx, Box::new(V::Struct("", self.fields))),
+        })
+    }
+}
+impl SerializeSeq for Acc {
+    type Ok = V;
+    type Error = RErr;
+    fn serialize_element<T: ?Sized + Serialize>(&mut self, v: &T) -> Result<(), RErr> {
+        self.items.push(v.serialize(Reflect)?);
+        Ok(())
+    }
+    fn end(self) -> Result<V, RErr> {
+        self.finish()
+    }
+}
+impl SerializeTuple for Acc {
+    type Ok = V;
+    type Error = RErr;
+    fn serialize_element<T: ?Sized + Serialize>(&mut self, v: &T) -> Result<(), RErr> {
+        self.items.push(v.serialize(Reflect)?);
+        Ok(())
+    }
+    fn end(self) -> Result<V, RErr> {
+        self.finish()
+    }
+}
+impl SerializeTupleStruct for Acc {
+    type Ok = V;
+    type Error = RErr;
+    fn serialize_field<T: ?Sized + Serialize>(&mut self, v: &T) -> Result<(), RErr> {
+        self.items.push(v.serialize(Reflect)?);
+        Ok(())
+    }
+    fn end(self) -> Result<V, RErr> {
+        self.finish()
+    }
+}
+impl SerializeTupleVariant for Acc {
+    type Ok = V;
+    type Error = RErr;
+    fn serialize_field<T: ?Sized + Serialize>(&mut self, v: &T) -> Result<(), RErr> {
+        self.items.push(v.serialize(Reflect)?);
+        Ok(())
+    }
+    fn end(self) -> Result<V, RErr> {
+        self.finish()
+    }
+}
+impl SerializeMap for Acc {
+    type Ok = V;
+    type Error = RErr;
+    fn serialize_key<T: ?Sized + Serialize>(&mut self, k: &T) -> Result<(), RErr> {
+        self.key = Some(k.serialize(Reflect)?);
+        Ok(())
+    }
+    fn serialize_value<T: ?Sized + Serialize>(&mut self, v: &T) -> Result<(), RErr> {
+        let k = self.key.take().ok_or(RErr("value without key".into()))?;
+        self.entries.push((k, v.serialize(Reflect)?));
+        Ok(())
+    }
+    fn end(self) -> Result<V, RErr> {
+        self.finish()
+    }
+}
+impl SerializeStruct for Acc {
+    type Ok = V;
+    type Error = RErr;
+    fn serialize_field<T: ?Sized + Serialize>(&mut self, k: Name, v: &T) -> Result<(), RErr> {
+        self.fields.push((k, v.serialize(Reflect)?));
+        Ok(())
+    }
+    fn end(self) -> Result<V, RErr> {
+        self.finish()
+    }
+}
+impl SerializeStructVariant for Acc {
+    type Ok = V;
+    type Error = RErr;
+    fn serialize_field<T: ?Sized + Serialize>(&mut self, k: Name, v: &T) -> Result<(), RErr> {
+        self.fields.push((k, v.serialize(Reflect)?));
+        Ok(())
+    }
+    fn end(self) -> Result<V, RErr> {
+        self.finish()
+    }
+}
+
+// ------------------------------------------------------------------------------------------------
+// concrete derived types
+// ------------------------------------------------------------------------------------------------
+
+#[derive(Serialize, Deserialize, PartialEq, Debug, Clone)]
+struct Point {
+    x: i32,
+    y: i32,
+}
+#[derive(Serialize, Deserialize, PartialEq, Debug, Clone)]
+struct Wide {
+    a: i64,
+    b: u64,
+    c: u32,
+    d: i8,
+    e: u16,
+}
+#[derive(Serialize, Deserialize, PartialEq, Debug, Clone)]
+struct Texty {
+    name: String,
+    initial: char,
+    tags: Vec<String>,
+    note: Option<String>,
+}
+#[derive(Serialize, Deserialize, PartialEq, Debug, Clone)]
+struct Marker;
+#[derive(Serialize, Deserialize, PartialEq, Debug, Clone)]
+struct Meters(f64);
+#[derive(Serialize, Deserialize, PartialEq, Debug, Clone)]
+struct Pair(i16, String);
+#[derive(Serialize, Deserialize, PartialEq, Debug, Clone)]
+enum Shape {
+    Empty,
+    Circle(f32),
+    Rect(u16, u16),
+    Named { label: String, sides: u8 },
+}
+#[derive(Serialize, Deserialize, PartialEq, Debug, Clone)]
+struct Nested {
+    p: Point,
+    shapes: Vec<Shape>,
+    m: BTreeMap<String, i64>,
+    t: (u8, bool, ()),
+}
+#[derive(Serialize, Deserialize, PartialEq, Debug, Clone)]
+struct Keyed {
+    by_int: BTreeMap<i64, String>,
+    by_u64: BTreeMap<u64, Option<u8>>,
+}
+#[derive(Serialize, Deserialize, PartialEq, Debug, Clone)]
+struct Opts {
+    a: Option<i32>,
+    b: Option<Vec<Option<bool>>>,
+    c: Option<Marker>,
+    d: Option<Shape>,
+}
+#[derive(Serialize, Deserialize, PartialEq, Debug, Clone)]
+enum Msg {
+    Ping,
+    Data(Vec<u8>),
+    Move(Point),
+    Pair(i64, u64),
+    Conf { retries: u32, name: Option<String> },
+}
+#[derive(Serialize, Deserialize, PartialEq, Debug, Clone)]
+struct Hashed {
+    m: HashMap<String, u16>,
+    k: HashMap<i32, bool>,
+}
+#[derive(erltf_serde::ElixirStruct, PartialEq, Debug, Clone)]
+#[elixir_module = "MyApp.User"]
+struct ExUser {
+    name: String,
+    age: u32,
+    email: Option<String>,
+}
+#[derive(erltf_serde::ElixirStruct, PartialEq, Debug, Clone)]
+#[elixir_module = "Geo.Pt"]
+struct ExPt {
+    lat: f64,
+    lon: f64,
+    id: i64,
+    tags: Vec<String>,
+}
+
+fn t_int(k: IntTy) -> Ty {
+    Ty::Int(k)
+}
+fn t_opt(t: Ty) -> Ty {
+    Ty::Opt(Box::new(t))
+}
+fn t_seq(t: Ty) -> Ty {
+    Ty::Seq(Box::new(t))
+}
+fn t_map(k: Ty, v: Ty) -> Ty {
+    Ty::Map(Box::new(k), Box::new(v))
+}
+fn t_st(n: Name, fs: &[(Name, Ty)]) -> Ty {
+    Ty::Struct(n, fs.to_vec())
+}
+fn ty_point() -> Ty {
+    t_st("Point", &[("x", t_int(IntTy::I32)), ("y", t_int(IntTy::I32))])
+}
+fn ty_shape() -> Ty {
+    Ty::Enum(
+        "Shape",
+        vec![
+            ("Empty", Ty::Unit),
+            ("Circle", Ty::Newtype("", Box::new(Ty::F32))),
+            ("Rect", Ty::Tup(vec![t_int(IntTy::U16), t_int(IntTy::U16)])),
+            ("Named", t_st("", &[("label", Ty::Str), ("sides", t_int(IntTy::U8))])),
+        ],
+    )
+}
+fn ty_marker() -> Ty {
+    Ty::UnitStruct("Marker")
+}
+
+fn g_i64(r: &mut Rng) -> i64 {
+    gen_int_val(r, IntTy::I64) as i64
+}
+fn g_point(r: &mut Rng) -> Point {
+    Point { x: gen_int_val(r, IntTy::I32) as i32, y: gen_int_val(r, IntTy::I32) as i32 }
+}
+fn g_shape(r: &mut Rng) -> Shape {
+    match r.below(4) {
+        0 => Shape::Empty,
+        1 => Shape::Circle(f32::from_bits(gen_f32(r))),
+        2 => Shape::Rect(gen_int_val(r, IntTy::U16) as u16, gen_int_val(r, IntTy::U16) as u16),
+        _ => Shape::Named { label: gen_string(r), sides: gen_int_val(r, IntTy::U8) as u8 },
+    }
+}
+fn g_opt<T>(r: &mut Rng, f: impl FnOnce(&mut Rng) -> T) -> Option<T> {
+    if r.chance(1, 3) { None } else { Some(f(r)) }
+}
+
+/// one derived type: correspondence with the model through its reflection, and the property on the real value
+fn concrete<T>(ctx: &mut Ctx, ty: &Ty, c: &T, ordered: bool, mutants: bool)
+where
+    T: Serialize + for<'a> Deserialize<'a> + PartialEq + fmt::Debug,
+{
+    ctx.count("derived_cases");
+    let v = reflect(c);
+    let (tt, vt) = (ty_text(ty), val_text(&v));
+    let term = match std::panic::catch_unwind(std::panic::AssertUnwindSafe(|| erltf_serde::to_term(c))) {
+        Ok(Ok(t)) => t,
+        other => {
+            ctx.fail("gen", &format!("to_term failed on derived value {} : {:?}", vt, other.map(|r| r.map(|_| ()))));
+            return;
+        }
+    };
+    let show = |r: std::thread::Result<Result<T, erltf_serde::Error>>| -> (String, Option<T>) {
+        match r {
+            Ok(Ok(x)) => (val_text(&reflect(&x)), Some(x)),
+            Ok(Err(_)) => ("err".into(), None),
+            Err(_) => ("panic".into(), None),
+        }
+    };
+    let okp = |s: &str| if s == "err" || s == "panic" { s.to_string() } else { format!("ok {}", s) };
+    let termt = term_text(&term);
+    let (mem, memv) = show(std::panic::catch_unwind(|| erltf_serde::from_term::<T>(&term)));
+    if ordered {
+        ctx.tie("derived", &format!("c15ser {}", vt), &format!("ok {}", termt));
+        ctx.tie("derived", &format!("c15de {} {}", tt, termt), &okp(&mem));
+        ctx.prop("gen", &format!("c15rt mem {} {} {}", tt, vt, mem), "ok");
+    }
+    let nan = vt.contains("f32:7f") || vt.contains("f32:ff") || vt.contains("f64:7ff") || vt.contains("f64:fff");
+    if !nan && memv.as_ref() != Some(c) {
+        ctx.fail("gen", &format!("derived in-memory round trip: {} {} -> {}", tt, vt, mem));
+    }
+    let (cu, wu) = wire_unsafe(&v);
+    match std::panic::catch_unwind(std::panic::AssertUnwindSafe(|| erltf_serde::to_bytes(c))) {
+        Ok(Ok(b)) => {
+            let (wire, wirev) = show(std::panic::catch_unwind(|| erltf_serde::from_bytes::<T>(&b)));
+            let class = if wire == "err" && cu {
+                "kf-c15-wire-char"
+            } else if wire == "err" && wu {
+                "kf-c15-wire-wide-int"
+            } else {
+                "gen"
+            };
+            if ordered {
+                ctx.tie("derived", &format!("c15bytes {} {}", tt, vt), &okp(&wire));
+                ctx.prop(class, &format!("c15rt wire {} {} {}", tt, vt, wire), "ok");
+            } else if !nan && wirev.as_ref() != Some(c) {
+                ctx.fail(class, &format!("derived wire round trip: {} {} -> {}", tt, vt, wire));
+            }
+            if ordered && !nan && wirev.as_ref() != Some(c) && class == "gen" {
+                ctx.fail("gen", &format!("derived wire round trip: {} {} -> {}", tt, vt, wire));
+            }
+        }
+        other => ctx.fail("gen", &format!("to_bytes failed on derived value {} : {:?}", vt, other.map(|r| r.map(|_| ())))),
+    }
+    // (types with a real BTreeMap/HashMap inside re-sort and merge entries, which the reflection cannot undo)
+    if ordered && mutants {
+        for _ in 0..2 {
+            let mut m = mutate(&mut ctx.rng, &term);
+            if ctx.rng.chance(1, 3) {
+                m = mutate(&mut ctx.rng, &m);
+            }
+            let (res, _) = show(std::panic::catch_unwind(|| erltf_serde::from_term::<T>(&m)));
+            ctx.tie("derived-mut", &format!("c15de {} {}", tt, term_text(&m)), &okp(&res));
+        }
+    }
+}
+
+fn run_concrete(ctx: &mut Ctx, n: usize) {
+    let i = |k| t_int(k);
+    let ty_wide = t_st(
+        "Wide",
+        &[("a", i(IntTy::I64)), ("b", i(IntTy::U64)), ("c", i(IntTy::U32)), ("d", i(IntTy::I8)), ("e", i(IntTy::U16))],
+    );
+    let ty_texty =
+        t_st("Texty", &[("name", Ty::Str), ("initial", Ty::Char), ("tags", t_seq(Ty::Str)), ("note", t_opt(Ty::Str))]);
+    let ty_meters = Ty::Newtype("Meters", Box::new(Ty::F64));
+    let ty_pair = Ty::TupleStruct("Pair", vec![i(IntTy::I16), Ty::Str]);
+    let ty_nested = t_st(
+        "Nested",
+        &[
+            ("p", ty_point()),
+            ("shapes", t_seq(ty_shape())),
+            ("m", t_map(Ty::Str, i(IntTy::I64))),
+            ("t", Ty::Tup(vec![i(IntTy::U8), Ty::Bool, Ty::Unit])),
+        ],
+    );
+    let ty_keyed = t_st(
+        "Keyed",
+        &[("by_int", t_map(i(IntTy::I64), Ty::Str)), ("by_u64", t_map(i(IntTy::U64), t_opt(i(IntTy::U8))))],
+    );
+    let ty_opts = t_st(
+        "Opts",
+        &[
+            ("a", t_opt(i(IntTy::I32))),
+            ("b", t_opt(t_seq(t_opt(Ty::Bool)))),
+            ("c", t_opt(ty_marker())),
+            ("d", t_opt(ty_shape())),
+        ],
+    );
+    let ty_msg = Ty::Enum(
+        "Msg",
+        vec![
+            ("Ping", Ty::Unit),
+            ("Data", Ty::Newtype("", Box::new(t_seq(i(IntTy::U8))))),
+            ("Move", Ty::Newtype("", Box::new(ty_point()))),
+            ("Pair", Ty::Tup(vec![i(IntTy::I64), i(IntTy::U64)])),
+            ("Conf", t_st("", &[("retries", i(IntTy::U32)), ("name", t_opt(Ty::Str))])),
+        ],
+    );
+    let ty_hashed = t_st("Hashed", &[("m", t_map(Ty::Str, i(IntTy::U16))), ("k", t_map(i(IntTy::I32), Ty::Bool))]);
+    let ty_exuser =
+        Ty::ExStruct("MyApp.User", vec![("name", Ty::Str), ("age", i(IntTy::U32)), ("email", t_opt(Ty::Str))]);
+    let ty_expt = Ty::ExStruct(
+        "Geo.Pt",
+        vec![("lat", Ty::F64), ("lon", Ty::F64), ("id", i(IntTy::I64)), ("tags", t_seq(Ty::Str))],
+    );
+    for _ in 0..n {
+        let r = &mut ctx.rng;
+        let p = g_point(r);
+        let w = Wide {
+            a: g_i64(r),
+            b: gen_int_val(r, IntTy::U64) as u64,
+            c: gen_int_val(r, IntTy::U32) as u32,
+            d: gen_int_val(r, IntTy::I8) as i8,
+            e: gen_int_val(r, IntTy::U16) as u16,
+        };
+        let tx = Texty {
+            name: gen_string(r),
+            initial: gen_char(r),
+            tags: (0..r.below(3)).map(|_| gen_string(r)).collect(),
+            note: g_opt(r, gen_string),
+        };
+        let me = Meters(f64::from_bits(gen_f64(r)));
+        let pa = Pair(gen_int_val(r, IntTy::I16) as i16, gen_string(r));
+        let sh = g_shape(r);
+        let ne = Nested {
+            p: g_point(r),
+            shapes: (0..r.below(4)).map(|_| g_shape(r)).collect(),
+            m: (0..r.below(4)).map(|_| (gen_string(r), g_i64(r))).collect(),
+            t: (r.next() as u8, r.chance(1, 2), ()),
+        };
+        let ke = Keyed {
+            by_int: (0..r.below(4)).map(|_| (g_i64(r), gen_string(r))).collect(),
+            by_u64: (0..r.below(4))
+                .map(|_| (gen_int_val(r, IntTy::U64) as u64, g_opt(r, |r| r.next() as u8)))
+                .collect(),
+        };
+        let op = Opts {
+            a: g_opt(r, |r| gen_int_val(r, IntTy::I32) as i32),
+            b: g_opt(r, |r| (0..r.below(4)).map(|_| g_opt(r, |r| r.chance(1, 2))).collect()),
+            c: g_opt(r, |_| Marker),
+            d: g_opt(r, g_shape),
+        };
+        let ms = match r.below(5) {
+            0 => Msg::Ping,
+            1 => {
+                let n = r.below(5) as usize;
+                Msg::Data(r.bytes(n))
+            }
+            2 => Msg::Move(g_point(r)),
+            3 => Msg::Pair(g_i64(r), gen_int_val(r, IntTy::U64) as u64),
+            _ => Msg::Conf { retries: gen_int_val(r, IntTy::U32) as u32, name: g_opt(r, gen_string) },
+        };
+        let ha = Hashed {
+            m: (0..r.below(5)).map(|_| (gen_string(r), r.next() as u16)).collect(),
+            k: (0..r.below(5)).map(|_| (gen_int_val(r, IntTy::I32) as i32, r.chance(1, 2))).collect(),
+        };
+        let eu = ExUser { name: gen_string(r), age: gen_int_val(r, IntTy::U32) as u32, email: g_opt(r, gen_string) };
+        let ep = ExPt {
+            lat: f64::from_bits(gen_f64(r)),
+            lon: f64::from_bits(gen_f64(r)),
+            id: g_i64(r),
+            tags: (0..r.below(3)).map(|_| gen_string(r)).collect(),
+        };
+        concrete(ctx, &ty_point(), &p, true, true);
+        concrete(ctx, &ty_wide, &w, true, true);
+        concrete(ctx, &ty_texty, &tx, true, true);
+        concrete(ctx, &ty_marker(), &Marker, true, true);
+        concrete(ctx, &ty_meters, &me, true, true);
+        concrete(ctx, &ty_pair, &pa, true, true);
+        concrete(ctx, &ty_shape(), &sh, true, true);
+        concrete(ctx, &ty_nested, &ne, true, false);
+        concrete(ctx, &ty_keyed, &ke, true, false);
+        concrete(ctx, &ty_opts, &op, true, true);
+        concrete(ctx, &ty_msg, &ms, true, true);
+        concrete(ctx, &ty_hashed, &ha, false, false);
+        concrete(ctx, &ty_exuser, &eu, true, true);
+        concrete(ctx, &ty_expt, &ep, true, true);
+    }
+}
+
+// ------------------------------------------------------------------------------------------------
+// the dynamic universe
+// ------------------------------------------------------------------------------------------------
+
+fn kind(t: &Ty) -> &'static str {
+    match t {
+        Ty::Int(k) => k.text(),
+        Ty::F32 => "f32",
+        Ty::F64 => "f64",
+        Ty::Bool => "bool",
+        Ty::Char => "char",
+        Ty::Str => "str",
+        Ty::Bytes => "bytes",
+        Ty::Unit => "unit",
+        Ty::Opt(_) => "opt",
+        Ty::Tup(_) => "tup",
+        Ty::Seq(_) => "seq",
+        Ty::Map(_, _) => "map",
+        Ty::Struct(_, _) => "struct",
+        Ty::UnitStruct(_) => "unit_struct",
+        Ty::Newtype(_, _) => "newtype",
+        Ty::TupleStruct(_, _) => "tuple_struct",
+        Ty::ExStruct(_, _) => "elixir_struct",
+        Ty::Enum(_, _) => "enum",
+    }
+}
+
+fn bare(s: &str) -> &str {
+    s.strip_prefix("ok ").unwrap_or(s)
+}
+
+fn dyn_case(ctx: &mut Ctx, ty: &Ty, v: &V) {
+    ctx.count(&format!("type_{}", kind(ty)));
+    let (tt, vt) = (ty_text(ty), val_text(v));
+    let term = match std::panic::catch_unwind(|| erltf_serde::to_term(v)) {
+        Ok(Ok(t)) => t,
+        Ok(Err(_)) => {
+            ctx.tie("gen", &format!("c15ser {}", vt), "err");
+            return;
+        }
+        Err(_) => {
+            ctx.tie("gen", &format!("c15ser {}", vt), "panic");
+            return;
+        }
+    };
+    let termt = term_text(&term);
+    ctx.tie("gen", &format!("c15ser {}", vt), &format!("ok {}", termt));
+    let mem = dyn_from_term(ty, &term);
+    ctx.tie("gen", &format!("c15de {} {}", tt, termt), &mem);
+    ctx.prop("gen", &format!("c15rt mem {} {} {}", tt, vt, bare(&mem)), "ok");
+    ctx.count(if mem.starts_with("ok") { "mem_ok" } else { "mem_err" });
+    let (cu, wu) = wire_unsafe(v);
+    match std::panic::catch_unwind(|| erltf_serde::to_bytes(v)) {
+        Ok(Ok(b)) => {
+            ctx.add("encoded_bytes", b.len() as u64);
+            match std::panic::catch_unwind(|| erltf::decode(&b)) {
+                Ok(Ok(d)) => {
+                    let dt = term_text(&d);
+                    ctx.tie("gen", &format!("c15wire {}", termt), &format!("ok {}", dt));
+                    let w2 = dyn_from_term(ty, &d);
+                    ctx.tie("gen", &format!("c15de {} {}", tt, dt), &w2);
+                }
+                _ => ctx.fail("gen", &format!("own decoder rejects to_bytes output of {}", vt)),
+            }
+            let wire = dyn_from_bytes(ty, &b);
+            ctx.tie("gen", &format!("c15bytes {} {}", tt, vt), &wire);
+            let class = if wire == "err" && cu {
+                "kf-c15-wire-char"
+            } else if wire == "err" && wu {
+                "kf-c15-wire-wide-int"
+            } else {
+                "gen"
+            };
+            ctx.prop(class, &format!("c15rt wire {} {} {}", tt, vt, bare(&wire)), "ok");
+            ctx.count(if wire.starts_with("ok") { "wire_ok" } else { "wire_err" });
+            if wire == "err" && (cu || wu) {
+                ctx.count("wire_err_known_cause");
+            }
+        }
+        _ => {
+            ctx.tie("gen", &format!("c15bytes {} {}", tt, vt), "encerr");
+            ctx.count("to_bytes_err");
+        }
+    }
+    // acceptance / error paths on perturbed terms
+    let k = 2 + ctx.rng.below(2);
+    for _ in 0..k {
+        let mut m = mutate(&mut ctx.rng, &term);
+        while ctx.rng.chance(1, 3) {
+            m = mutate(&mut ctx.rng, &m);
+        }
+        let res = dyn_from_term(ty, &m);
+        ctx.count(if res.starts_with("ok") { "mutant_ok" } else { "mutant_err" });
+        ctx.tie("mut", &format!("c15de {} {}", tt, term_text(&m)), &res);
+    }
+}
+
+/// the witnesses of the findings, fixed (also proved in Props/C15.lean)
+fn witnesses(ctx: &mut Ctx) {
+    let cases: Vec<(Ty, V)> = vec![
+        (Ty::Int(IntTy::I64), V::Int(IntTy::I64, 1 << 40)),
+        (Ty::Int(IntTy::I64), V::Int(IntTy::I64, -(1 << 31) - 1)),
+        (Ty::Int(IntTy::I64), V::Int(IntTy::I64, i64::MIN as i128)),
+        (Ty::Int(IntTy::U32), V::Int(IntTy::U32, 3_000_000_000)),
+        (Ty::Int(IntTy::U32), V::Int(IntTy::U32, 1 << 31)),
+        (Ty::Char, V::Char('a')),
+        (Ty::Char, V::Char('😀')),
+        (Ty::Int(IntTy::U64), V::Int(IntTy::U64, 1 << 40)),
+        (Ty::Int(IntTy::U64), V::Int(IntTy::U64, u64::MAX as i128)),
+        (Ty::Int(IntTy::I32), V::Int(IntTy::I32, i32::MIN as i128)),
+    ];
+    for (t, v) in cases {
+        dyn_case(ctx, &t, &v);
+    }
+    // exhaustive: every integer type at every power-of-two boundary and its neighbours
+    for k in IntTy::ALL {
+        for p in 0..=64u32 {
+            for d in [-1i128, 0, 1] {
+                for s in [1i128, -1] {
+                    let x = s * (1i128 << p) + d;
+                    if k.fits(x) {
+                        dyn_case(ctx, &Ty::Int(k), &V::Int(k, x));
+                    }
+                }
+            }
+        }
+    }
+    ctx.add("exhaustive", 1);
+}
+
+pub fn run(ctx: &mut Ctx) {
+    witnesses(ctx);
+    let n = ctx.n(700, 4000);
+    for _ in 0..n {
+        let ty = gen_ty(&mut ctx.rng, 0);
+        let v = gen_val(&mut ctx.rng, &ty, 0);
+        dyn_case(ctx, &ty, &v);
+        // type confusion: another type's deserialiser on this term; arbitrary terms
+        if ctx.rng.chance(1, 3) {
+            let ty2 = gen_ty(&mut ctx.rng, 1);
+            if let Ok(t) = erltf_serde::to_term(&v) {
+                let res = dyn_from_term(&ty2, &t);
+                ctx.tie("cross", &format!("c15de {} {}", ty_text(&ty2), term_text(&t)), &res);
+            }
+        }
+        if ctx.rng.chance(1, 4) {
+            let cfg = crate::tgen::Cfg { max_depth: 2, huge: false, ..Default::default() };
+            let t = crate::tgen::gen_term(&mut ctx.rng, &cfg, 0);
+            let res = dyn_from_term(&ty, &t);
+            ctx.tie("anyterm", &format!("c15de {} {}", ty_text(&ty), term_text(&t)), &res);
+        }
+    }
+    let n = ctx.n(25, 150);
+    run_concrete(ctx, n);
+}
